@@ -154,6 +154,30 @@ Theorem C18_reads_judge_sound : forall l, reads_ok l = true -> forall v r, In (v
 Proof. exact reads_ok_sound. Qed.
 Print Assumptions C18_reads_judge_sound.
 
+(* stores through a configured path of any file-system shape, each reporting success or an error, the
+   file read through the same path before the first and after every store: the judge implies the
+   specification for both getters whatever was read before (also "nothing"), a store that reported
+   success must be read back, and the abstract store (success installs, an error changes nothing)
+   passes *)
+Theorem C18_paths_judge_sound : forall val prev l, paths_ok prev l = true ->
+  steps_ok (decode val prev) (spec_of_obs val (paths_obs l false))
+           (map (fun x : N * fate * reading => decode val (snd x)) (paths_obs l false)) /\
+  steps_ok (decode val prev) (spec_of_obs val (paths_obs l true))
+           (map (fun x : N * fate * reading => decode val (snd x)) (paths_obs l true)).
+Proof. exact paths_ok_sound. Qed.
+Print Assumptions C18_paths_judge_sound.
+
+Theorem C18_paths_done_reads : forall prev v r1 r2 l, paths_ok prev ((v, Done, r1, r2) :: l) = true ->
+  r1 = RVal v /\ r2 = RVal v.
+Proof. exact paths_ok_done_reads. Qed.
+Print Assumptions C18_paths_done_reads.
+
+Theorem C18_paths_model_ok : forall l prev,
+  forallb (fun x : N * fate => negb (fate_eqb (snd x) Died)) l = true ->
+  hist_ok prev (combine l (path_model prev l)) = true.
+Proof. exact path_model_ok. Qed.
+Print Assumptions C18_paths_model_ok.
+
 (* the recogniser [determined] used on observed traces: what such a trace leaves in the target does not
    depend on any other file of the directory; the repaired protocol passes it *)
 Theorem C18_leftovers_irrelevant : forall t tr s1 s2, determined [t] tr = true -> s1 t = s2 t ->
@@ -220,6 +244,10 @@ Example C18_nonvacuous :
   (* store 1, read, store 2 (same length, same timestamp tick), read: the second read must see 2 *)
   reads_ok [(1%N, RVal 1%N); (2%N, RVal 2%N)] = true /\
   reads_ok [(1%N, RVal 1%N); (2%N, RVal 1%N)] = false /\
+  (* a path that is a link: store 1 reports success but the previous value 0 is read back *)
+  paths_ok (RVal 0) [(1%N, Done, RVal 0%N, RVal 0%N)] = false /\
+  paths_ok ROther [(1%N, Failed, ROther, ROther); (2%N, Done, RVal 2%N, RVal 2%N)] = true /\
+  path_model (RVal 0) [(1%N, Failed); (2%N, Done)] = [RVal 0%N; RVal 2%N] /\
   safe_topo (mkTopo [mkPeer "QmA"%string ["/dns4/r1/tcp/9000"%string]; mkPeer "QmB"%string []] 2) = true /\
   parse_topo (print_topo (mkTopo [mkPeer "QmA"%string ["/dns4/r1/tcp/9000"%string]; mkPeer "QmB"%string []] 2))
   = Some (mkTopo [mkPeer "QmA"%string ["/dns4/r1/tcp/9000"%string]; mkPeer "QmB"%string []] 2).
